@@ -406,6 +406,8 @@ func checkC04(p *Program, r *Report) {
 	checkLabelBound(p, r, "C04.label-bound")
 	// the iterator decodes every node into a session it reuses (shared with C10)
 	checkSessionTypestate(p, r, "C04.session-valid")
+	r.Explanation += " (capacity) a presence bitmap whose entries are ordinals is built with a capacity that covers every ordinal its readers probe: last counter-derived ordinal plus one, or the bound of the loop whose indexes are listed."
+	checkCapacity(p, r, "C04.capacity")
 }
 
 // checkStop: in ScanFrom, from the branch taken when the callback returns
